@@ -19,10 +19,17 @@ import (
 
 func init() { scenarios["C04"] = scenarioC04 }
 
+// resetProcessState recreates rapid's process-wide caches and package-level generators (set in builds that inject the
+// helper): every C04 run then starts cold, and its warm history is exactly the warm-ups on its own tape.
+var resetProcessState func()
+
 func isColdChild() bool { return os.Getenv("VERIF_C04_CHILD") == "1" }
 
 func scenarioC04(rc *RunCtx) {
 	t := rc.T
+	if resetProcessState != nil {
+		resetProcessState()
+	}
 	pf := failingProfile(t)
 	pf.RejectHeavy = t.Chance("pf.rejectheavy2", 70)
 	pf.PRepeat = 35
@@ -45,10 +52,20 @@ func scenarioC04(rc *RunCtx) {
 		spawnCold = t.Chance("c04.cold", map[string]int{"quick": 6, "thorough": 12}[rc.Tier])
 	}
 
-	if !isColdChild() && strings.Contains(prog.String(), "matching(5)") != strings.Contains(prog.String(), "matching(6)") {
-		// one of two look-alike regexps: whether earlier runs of this process used the other one must not matter
-		spawnCold = spawnCold || t.Chance("c04.cold_lookalike", 60)
+	lookalike := -1
+	if strings.Contains(prog.String(), "matching(5)") != strings.Contains(prog.String(), "matching(6)") {
+		lookalike = 6
+		if strings.Contains(prog.String(), "matching(6)") {
+			lookalike = 5
+		}
+	}
+	if !isColdChild() && lookalike >= 0 && t.Chance("c04.cold_lookalike", 60) {
+		// one of two look-alike regexps: whether the process used the other one before must not matter
+		spawnCold = true
 		rc.Inc("probe.lookalike_regexp_program")
+		wp := &Prog{NVars: 1, Body: []*Stmt{{K: SDraw, Var: 0, Gen: &GenSpec{K: "matching", A: lookalike}, Label: "other"}}}
+		wr := RunCheck(wp, RunOpt{Name: "TestWarmLookalike", Dir: rc.FreshDir(), Flags: Flags{Checks: 2, Steps: 1, Seed: 7, NoFailFile: true}, Clock: ClockPolicy{Kind: ClkFrozen}})
+		rc.SimNs += int64(wr.SimElapsed)
 	}
 
 	// prior history in this process: other checks, generators, label caches
